@@ -288,4 +288,38 @@ def serverReplyG (fixed : Bool) (A : AEAD) (keys : Nat → Option Bytes) (curId 
 def serverReply := serverReplyG true
 def serverReplyOld := serverReplyG false
 
+/-! ### Results kept across calls
+
+  The listeners keep what `Decrypt` returned (the session keys `C2S`/`S2C`, which are sub-slices of
+  the opened plaintext) while they authenticate the request, build the response and seal fresh
+  cookies; other goroutines open other clients' cookies meanwhile. The model's functions are pure:
+  a result depends only on the arguments of its own call (for `Decrypt`: key and cookie bytes) and
+  can never change afterwards. `runCalls` is what a caller observes who makes several calls and
+  looks at all results at the end; the harness op `seq.run` makes the same calls on the real code,
+  keeps the returned Go values and renders them only after the last call (seeded C10-9: a pooled
+  plaintext buffer made earlier results change under later calls). -/
+
+/-- One call whose result the caller keeps. -/
+inductive Call where
+  | decrypt (cookie key : Bytes)          -- `ec.Decode(cookie)`, `ec.Decrypt(key)`
+  | plain (b : Bytes)                     -- `(*ServerCookie).Decode(b)`
+  | request (b key : Bytes)               -- `DecodePacket(b)`, `ProcessRequest(b, key, …)`
+  | response (b key reqId : Bytes)        -- `DecodePacket(b)`, `ProcessResponse(b, key, …, reqId)`
+deriving Repr
+
+/-- What the caller holds afterwards. -/
+inductive CallRes where
+  | cookie (r : Res Triple)
+  | cookies (r : Res (List Bytes))
+deriving DecidableEq, Repr
+
+def Call.run (A : AEAD) : Call → CallRes
+  | .decrypt cookie key => .cookie (ecDecode cookie >>= fun ec => decryptCookie A ec key)
+  | .plain b => .cookie (ScionTime.Nts.scDecode b)
+  | .request b key => .cookies (decodePacket b >>= fun d => processRequest A b key d)
+  | .response b key rid => .cookies (decodePacket b >>= fun d => processResponse A b key d rid)
+
+/-- Several calls, all results inspected after the last one. -/
+def runCalls (A : AEAD) (cs : List Call) : List CallRes := cs.map (Call.run A)
+
 end ScionTime.Nts
